@@ -1,6 +1,7 @@
 """C03 -- transformations are a left group action (S1, P1, W1, RO, U1)."""
 from ..rules import enum_rules as E
 from ..rules import misc_rules as MI
+from ..rules import dtype_rules as DT
 from ..rules import proj_rules as P
 from ..rules import rep_rules as R
 from ..rules import cache_rules as CA
@@ -29,6 +30,9 @@ ENTRIES = [
 def run(ctx):
     ctx.do(MI.rule_pinv1)
     ctx.do(MI.rule_inv3)
+    # the inverse is typed like its argument only if no quotient is stored
+    # into an integer buffer
+    ctx.do(DT.rule_lk1, ["geometry_tools/utils/core.py"], scope={ctx.p.get_function("geometry_tools/utils/core.py", "invert")})
     ctx.do(MI.rule_rc2, ["geometry_tools/hyperbolic.py", "geometry_tools/projective.py"])
     ctx.do(MI.rule_invs1)
     ctx.do(E.rule_m3)
